@@ -71,6 +71,7 @@ type Exec struct {
 	retSubst map[*ast.Ident]types.Object
 	curStmtPos token.Pos
 	closures map[types.Object]*ast.FuncLit
+	boxAx    map[string]bool
 	loopsUsed map[int]bool
 	UsedContracts map[string]bool
 	loopOrdOf map[ast.Stmt]int
@@ -641,6 +642,19 @@ func (e *Exec) box(st *State, v Term, from types.Type) Term {
 	e.Ctx.DeclareFun(bn, []string{srt}, SInt)
 	e.Ctx.DeclareFun(un, []string{SInt}, srt)
 	b := app(SInt, bn, v)
+	if strings.Contains(v.S, "!q") {
+		// a quantifier-bound value is boxed (cache invariants range over boxed keys): the ground instance
+		// below would be dropped, so the defining axiom of this box function is added once, with a pattern
+		if e.boxAx == nil {
+			e.boxAx = map[string]bool{}
+		}
+		if !e.boxAx[bn] {
+			e.boxAx[bn] = true
+			e.Ctx.Axiom(fmt.Sprintf("(forall ((bx!q0 %s)) (! (and (< (%s bx!q0) 0) (= (dyntype (%s bx!q0)) %d) (= (%s (%s bx!q0)) bx!q0)) :pattern ((%s bx!q0))))", srt, bn, bn, id, un, bn, bn))
+			e.Ctx.NeedsQuant = true
+		}
+		return b
+	}
 	// ground instance of: box(x) < 0, dyntype(box(x)) = id, unbox(box(x)) = x
 	e.Ctx.Assume(st.PC, And(Lt(b, Int(0)), Eq(app(SInt, "dyntype", b), Int(int64(id))), Eq(app(srt, un, b), v)))
 	return b
